@@ -142,9 +142,9 @@ def main(tier, seed, args):
         ex = run_explorer(rep, c, sc, name, max_states=300000, max_depth=800, time_budget=budget)
         scen_common.report(rep, PID, name, ex, sc)
         if tier == 'thorough' and not rep.violations:
-            # free interleaving of both payments, one run per freeze point of A (its first five RPCs).  A frozen on its
-            # timer with free interleaving did not finish (207 000 states in 15 min): that combination stays sequential.
-            for fz in range(5):
+            # free interleaving of both payments, one run per freeze point of A (its first four RPCs).  A frozen at its fifth RPC or on its
+            # timer with free interleaving did not finish (207 000 states in 15 min, 50 min): those stay sequential.
+            for fz in range(4):
                 cfg, pc = two_hash_cfg()
                 sc = FrozenA(c, cfg, [LockDiscipline(), Isolation(), Coverage(['response:Resolve'])], pc)
                 sc.sequential = False
